@@ -52,7 +52,7 @@ PLAN = {
     "C12": [("plain", 4, 16)],
     "C13": [("plain", 4, 16)],
     "C14": [("plain", 4, 16)],
-    "C15": [("plain", 4, 16)],
+    "C15": [("plain", 4, 16), ("race", 1, 4)],
     "C16": [("plain", 4, 16)],
     "C17": [("plain", 4, 16)],
     "C18": [("race", 4, 16), ("plain", 2, 8)],
